@@ -167,7 +167,7 @@ Init == /\ allow \in SelSets(MaxAllow) /\ deny \in SelSets(MaxDeny)
         /\ done = FALSE
 Emit == /\ ~done /\ done' = TRUE /\ UNCHANGED <<allow, deny>>
         /\ PrintT(ToJson([a   |-> SetToSeq(allow), d |-> SetToSeq(deny),
-                          sel |-> SetToSeq(Selected(allow, deny)),
+                          sel |-> SetToSeq({i \in RI : Rules[i].code \in Selected(allow, deny)}),   \* rule indices
                           algo_same |-> (AlgoSelected(allow, deny) = Selected(allow, deny))]))
 Next == Emit
 Spec == Init /\ [][Next]_vars
